@@ -341,6 +341,12 @@ func (ci *crdIpam) ConfigurePool(floatIPs []*FloatingIPPool) error {
 		glog.Infof("Configure pool done, %d fip pool, %d unallocated, %d allocated", len(ci.FloatingIPs),
 			len(ci.unallocatedFIPs), len(ci.allocatedFIPs))
 	}()
+	for i := range floatIPs {
+		if floatIPs[i] == nil {
+			// a configuration text such as [null] decodes to a nil pool
+			return fmt.Errorf("floatingip pool %d of the configuration is null", i)
+		}
+	}
 	sort.Sort(FloatingIPSlice(floatIPs))
 	ips, err := ci.listFloatingIPs()
 	if err != nil {
